@@ -4,16 +4,28 @@
 package repro
 
 import (
+	"context"
 	"net"
 	"os"
 	"path/filepath"
 	"syscall"
 	"testing"
+	"time"
 
 	"github.com/panjf2000/gnet/v2"
 )
 
-type h struct{ gnet.BuiltinEventEngine }
+type h struct {
+	gnet.BuiltinEventEngine
+	eng chan gnet.Engine
+}
+
+func (x *h) OnBoot(e gnet.Engine) gnet.Action {
+	if x.eng != nil {
+		x.eng <- e
+	}
+	return gnet.None
+}
 
 func openFDs(t *testing.T) int {
 	ents, err := os.ReadDir("/proc/self/fd")
@@ -88,13 +100,29 @@ func TestD28bStartFailureLeaksPerLoopListener(t *testing.T) {
 	var old syscall.Rlimit
 	_ = syscall.Getrlimit(syscall.RLIMIT_NOFILE, &old)
 	failures := 0
-	for extra := 3; extra <= 9; extra++ { // walk the failure point through the start-up sequence
+	for extra := 3; extra <= 12; extra++ { // walk the failure point through the start-up sequence
 		before := openFDs(t)
 		lim := syscall.Rlimit{Cur: uint64(maxFD(t) + 1 + extra), Max: old.Max}
 		if err := syscall.Setrlimit(syscall.RLIMIT_NOFILE, &lim); err != nil {
 			t.Fatal(err)
 		}
-		err := gnet.Run(&h{}, "tcp://127.0.0.1:0", gnet.WithReusePort(true), gnet.WithNumEventLoop(3))
+		hd := &h{eng: make(chan gnet.Engine, 1)}
+		res := make(chan error, 1)
+		go func() {
+			res <- gnet.Run(hd, "tcp://127.0.0.1:0", gnet.WithReusePort(true), gnet.WithNumEventLoop(3))
+		}()
+		var err error
+		select {
+		case err = <-res:
+		case <-time.After(time.Second):
+			// enough descriptors: the engine is up; stop it and end the sweep
+			_ = syscall.Setrlimit(syscall.RLIMIT_NOFILE, &old)
+			e := <-hd.eng
+			_ = e.Stop(context.Background())
+			<-res
+			extra = 100
+			continue
+		}
 		_ = syscall.Setrlimit(syscall.RLIMIT_NOFILE, &old)
 		if err == nil {
 			t.Fatalf("Run returned nil with only %d spare descriptors", extra)
